@@ -321,6 +321,12 @@ def isFault : Verdict → Bool
   | .fault _ => true
   | _ => false
 
+/-- a fault is a TypeError (a comparison between incomparable values, an unhashable member of a
+    rebuilt set) or the ValueError / TypeError of a Check constructor -/
+def faultOK : Verdict → Bool
+  | .fault c => c == "TypeError" || c == "ValueError"
+  | _ => true
+
 /-- Python's `lv <op> rv` does not raise (an operand whose T access fails is never compared) -/
 def cmpCalm (op : CmpOp) (lv rv : Option V) : Bool :=
   match lv, rv with
@@ -424,9 +430,10 @@ def checkC09 (ct : ClassTable) (p : Spec) (d : Option Arg) (t : V) (o : Obs9) : 
     let den := denote ct (.matchS p d) t
     obsSat den.1 den.2 o.main &&
     obsSat den.1 den.2 o.verify &&
-    -- matches(): True iff it passes; on a fault (where verify raises) certainly not True
+    -- matches(): True iff it passes; on a fault - a comparison that raises, … - verify() raises (glom() hands
+    -- every Exception on as a GlomError) and matches() answers False: it never raises
     (match den.1 with
-     | .fault _ => o.matched != some true
+     | .fault _ => o.matched == some false
      | _ => o.matched == some (obsIsOk o.main)) &&
     V.beq o.targetAfter t &&
     (!constDefaults p ||
@@ -479,6 +486,7 @@ structure Facts9 where
   moduleWrites : List (String × String × String)
   userAttrs : List (String × String)
   targetTests : List (String × String)
+  identityTests : List (String × String)
 
 /-- the attributes `_glom_match` / `_handle_dict` read directly off user objects: `.key` /
     `.default` of a key that was just found to be an `Optional` / `Required`, and `.items` of a
@@ -495,6 +503,15 @@ def expectedTargetTests : List (String × String) :=
   [("_glom_match", "not isinstance(target, spec)"), ("_glom_match", "not isinstance(target, type(spec))"),
    ("_glom_match", "not isinstance(target, tuple)"), ("_handle_dict", "not isinstance(target, dict)"),
    ("Regex.glomit", "type(target) not in _RE_TYPES")]
+
+/-- the only identity comparisons of `_glom_match` / `_handle_dict`: on the TYPE of a spec or key
+    and on the `_MISSING` marker — never between a target key and a spec key (a target key that IS the
+    key pattern object, e.g. the class `str` under the key pattern `str`, is judged by the pattern
+    like any other key) -/
+def expectedIdentityTests : List (String × String) :=
+  [("_glom_match", "type(spec) is not list"), ("_handle_dict", "type(key) is not Optional"),
+   ("_handle_dict", "type(key) is Required"), ("_handle_dict", "type(key) is Optional"),
+   ("_handle_dict", "key.default is not _MISSING"), ("_handle_dict", "type(maybe_spec_key) is Required")]
 
 def expectedPrecedence : List (String × String) :=
   [("type(match) in (Required, Optional)", "match = match.key"),
@@ -587,6 +604,8 @@ def precStep (recur : Spec → Nat) : List (String × String) → KeyKind → Sp
       method / `setattr` on is the scope or a local ALL of whose bindings in that function are
       fresh displays / comprehensions — never the target or the spec;
     * TypeMatchError is a MatchError and a TypeError; `Match.matches` catches GlomError;
+    * **every key is judged**: no identity comparison between target and spec objects
+      (`expectedIdentityTests`);
     * **which targets a rule applies to**: the class of the target is tested with `isinstance`
       in the type, dict, list / set / frozenset and tuple rules, by exact type in Regex
       (`expectedTargetTests`);
@@ -600,6 +619,7 @@ def precStep (recur : Spec → Nat) : List (String × String) → KeyKind → Sp
       default given" in Match / And / Or / Switch / Optional) and `RAISE` (Check) in particular;
       `identityExempt` lists the two that do not (see there). -/
 def WF9 (env : Env) (f : Facts9) : Bool :=
+  f.identityTests == expectedIdentityTests &&
   f.targetTests == expectedTargetTests &&
   f.userAttrs == expectedUserAttrs &&
   f.moduleWrites.isEmpty &&
